@@ -438,4 +438,154 @@ Section rule.
              exfalso. apply (Hc2 y t (ST _ eq_refl)).
           -- intros x' y' q' Hst. apply (Hc2 x' (y' :: q') (ST _ Hst)).
   Qed.
+
+  Lemma sewb_ok maxd : forall fuel st p k, Pre (broot st) p -> 0 <= k -> k = d - lenZ p -> (Z.to_nat k < fuel)%nat ->
+    Post (broot st) (broot (sewb fuel P maxd st p k)) p.
+  Proof.
+    induction fuel as [|fuel IHf]; intros st p k HPre Hk0 Hkd Hfu; [lia|].
+    rewrite sewb_unfold. cbv zeta. cbn [broot].
+    pose proof HPre as (W0 & Sp & Np & Bp & (w0 & c0 & Hf) & C0 & D0 & E0).
+    destruct (Z.eqb_spec k 0) as [Hz|Hz].
+    - cbn [broot]. split; [exact W0 | split; [|reflexivity]].
+      intros x y q. rewrite D0. symmetry. change (p ++ x :: y :: q) with (p ++ [x] ++ [y] ++ q). rewrite !app_assoc.
+      destruct (B (p ++ [x])) as [w|] eqn:Eb.
+      + apply B_prefix; [destruct p; discriminate|]. rewrite (B_rule (p ++ [x]) w y Eb).
+        * rewrite lenZ_snoc. destruct (Z.leb_spec (lenZ p + 1 + 1) (d + 1)); [lia | reflexivity].
+        * rewrite app_length. cbn [length]. destruct p; [congruence | cbn [length]; lia].
+      + rewrite <- app_assoc. apply B_prefix; [destruct p; discriminate | exact Eb].
+    - rewrite fold_left_rev_r. unfold kids_at. rewrite Hf.
+      set (st1 := mkB (broot st) (Z.max (bdim st) (maxd - k)) (blog st)).
+      assert (rec_ok (sewb fuel P maxd) (k - 1)) as Hrec.
+      { intros st' sigma HP' Hk'. apply IHf; auto; lia. }
+      destruct (loop_ok (sewb fuel P maxd) p k (broot st) w0 c0 HPre ltac:(lia) Hkd Hf Hrec (labs c0) [] eq_refl st1 eq_refl) as (W & I1 & I2).
+      pose proof (wf_find p (broot st) w0 c0 W0 Hf) as Wc0.
+      assert (forall y, find_val (p ++ [y]) (broot st) = vlookup y (labs c0)) as FS.
+      { intro y. rewrite (find_val_app p [y] (broot st) w0 c0) by (auto; discriminate). rewrite find_val_one. symmetry. apply vlookup_labs. exact Wc0. }
+      split; [exact W | split].
+      + intros x y q. destruct (is_some (vlookup x (labs c0))) eqn:Ex; [apply I1; [discriminate | exact Ex]|].
+        rewrite I2; [| destruct p; discriminate |].
+        * rewrite D0. symmetry. change (p ++ x :: y :: q) with (p ++ [x] ++ (y :: q)). rewrite app_assoc.
+          apply B_prefix; [destruct p; discriminate|]. rewrite <- C0, FS. destruct (vlookup x (labs c0)); [discriminate | reflexivity].
+        * intros x' y' q' Hst. rewrite strip_app in Hst. inversion Hst; subst. exact Ex.
+      + intros rho Hr Hc. apply I2; [exact Hr|]. intros x y q Hst. exfalso. apply (Hc x y q Hst).
+  Qed.
+
+  (* ---- the loop over the root vertices ---- *)
+  Definition top_step (fuel : nat) (b : bstate) (e : Z * V * trie) : bstate :=
+    let '(x, w, Node c) := e in match c with [] => b | _ :: _ => sewb fuel P d b [x] (d - 1) end.
+  Lemma labs_app (a b : sibs) : labs (a ++ b) = labs a ++ labs b.
+  Proof. unfold labs. apply map_app. Qed.
+  Lemma get_labs x : forall l, wf l -> is_some (get x l) = is_some (vlookup x (labs l)).
+  Proof. intros l W. rewrite vlookup_labs by exact W. destruct (get x l); reflexivity. Qed.
+
+  Lemma top_ok fuel root0 : wf root0 -> 2 <= d -> (Z.to_nat (d - 1) < fuel)%nat ->
+    (forall rho, (length rho <= 2)%nat -> find_val rho root0 = B rho) ->
+    (forall rho, (3 <= length rho)%nat -> find_val rho root0 = None) ->
+    forall es pre, root0 = pre ++ es -> forall b0, broot b0 = root0 ->
+    let b' := fold_right (fun e b => top_step fuel b e) b0 es in
+    wf (broot b') /\
+    (forall z y y2 q, is_some (vlookup z (labs es)) = true -> find_val (z :: y :: y2 :: q) (broot b') = B (z :: y :: y2 :: q)) /\
+    (forall rho, rho <> [] -> (forall z y y2 q, rho = z :: y :: y2 :: q -> is_some (vlookup z (labs es)) = false) ->
+                 find_val rho (broot b') = find_val rho root0).
+  Proof.
+    intros W0 Hd Hfu G1 G2. pose proof (wf_lsorted root0 W0) as SS.
+    induction es as [|[[x w] [c]] rest IH]; intros pre HS b0 Hb0.
+    - cbn [fold_right]. cbv zeta. split; [rewrite Hb0; exact W0 | split].
+      + intros z y y2 q H. discriminate.
+      + intros rho _ _. rewrite Hb0. reflexivity.
+    - cbn [fold_right]. cbv zeta.
+      assert (root0 = (pre ++ [(x, w, Node c)]) ++ rest) as HS' by (rewrite <- app_assoc; exact HS).
+      pose proof (IH (pre ++ [(x, w, Node c)]) HS' b0 Hb0) as IHr. cbv zeta in IHr.
+      set (b1 := fold_right (fun e b => top_step fuel b e) b0 rest) in *.
+      destruct IHr as (W1 & T1 & T2). set (root1 := broot b1) in *.
+      assert (labs root0 = labs pre ++ (x, w) :: labs rest) as HL by (rewrite HS, labs_app; reflexivity).
+      assert (lsorted ((x, w) :: labs rest)) as Srest by (apply (lsorted_app_r (labs pre)); rewrite <- HL; exact SS).
+      destruct Srest as [Bx Sr]. cbn [fst] in Bx.
+      assert (vlookup x (labs rest) = None) as Nx by (apply (vlookup_lbnd x x); [exact Bx | lia]).
+      assert (vlookup x (labs root0) = Some w) as Vx by (rewrite HL; apply vlookup_mid; rewrite <- HL; exact SS).
+      assert (find_val [x] root0 = Some w) as Fx by (rewrite find_val_one, <- vlookup_labs by exact W0; exact Vx).
+      assert (get x root0 = Some (w, Node c)) as Gx.
+      { apply in_get; [exact W0|]. rewrite HS. apply in_or_app. right. left. reflexivity. }
+      assert (forall rho, (forall z y y2 q, rho = z :: y :: y2 :: q -> is_some (vlookup z ((x, w) :: labs rest)) = false) ->
+                          (forall z y y2 q, rho = z :: y :: y2 :: q -> is_some (vlookup z (labs rest)) = false) /\
+                          (forall y y2 q, rho <> x :: y :: y2 :: q)) as CI.
+      { intros rho H. split.
+        - intros z y y2 q Hr. specialize (H z y y2 q Hr). cbn [vlookup] in H. destruct (z =? x); [discriminate | exact H].
+        - intros y y2 q Hr. specialize (H x y y2 q Hr). cbn [vlookup] in H. rewrite Z.eqb_refl in H. discriminate. }
+      (* words starting with a label that has no children in the graph tree, or with no vertex at all *)
+      assert (forall z y y2 q, find_val [z; y] root0 = None -> B (z :: y :: y2 :: q) = None) as BN.
+      { intros z y y2 q Hn. change (z :: y :: y2 :: q) with ([z; y] ++ y2 :: q). apply B_prefix; [discriminate|].
+        rewrite <- G1 by (cbn; lia). exact Hn. }
+      unfold top_step at 1. cbn [labs map label fst snd]. fold (labs rest).
+      destruct c as [|e0 c'].
+      + (* no edge from x upwards: skipped *)
+        split; [exact W1 | split].
+        * intros z y y2 q Hz. cbn [vlookup] in Hz. destruct (Z.eqb_spec z x) as [->|Hzx]; [|apply T1; exact Hz].
+          rewrite T2; [| discriminate |].
+          -- rewrite G2 by (cbn; lia). symmetry. apply BN. rewrite find_val_deep, Gx. apply find_val_nil_l.
+          -- intros z' y' y2' q' Hr. inversion Hr; subst. rewrite Nx. reflexivity.
+        * intros rho Hr Hc. destruct (CI rho Hc) as [Hc1 _]. apply T2; auto.
+      + set (cc := e0 :: c') in *.
+        assert (Pre (broot b1) [x]) as Pre1.
+        { fold root1. split; [exact W1|]. split; [reflexivity|]. split; [discriminate|].
+          split; [rewrite <- G1, Fx by (cbn; lia); discriminate|].
+          split.
+          { assert (find_val [x] root1 = Some w) as Hv.
+            { rewrite T2; [exact Fx | discriminate | intros z y y2 q Hr; discriminate]. }
+            unfold find_val in Hv. destruct (find [x] root1) as [[w' [c1]]|]; [|discriminate]. inversion Hv; subst. eauto. }
+          split; [|split].
+          - intro y. cbn [app]. rewrite T2; [apply G1; cbn; lia | discriminate | intros z y' y2 q Hr; discriminate].
+          - intros x2 y q. cbn [app]. rewrite T2; [apply G2; cbn; lia | discriminate |].
+            intros z y' y2 q' Hr. inversion Hr; subst. rewrite Nx. reflexivity.
+          - intros tau z q Hin Az. cbn [facets] in Hin. destruct Hin as [<-|[]]. cbn [app].
+            assert (x < z) as Hxz by (apply Az; left; reflexivity).
+            destruct q as [|y [|y2 q2]].
+            + rewrite T2; [apply G1; cbn; lia | discriminate | intros z' y' y2' q' Hr; discriminate].
+            + rewrite T2; [apply G1; cbn; lia | discriminate | intros z' y' y2' q' Hr; discriminate].
+            + destruct (is_some (vlookup z (labs rest))) eqn:Ez; [apply T1; exact Ez|].
+              rewrite T2; [| discriminate | intros z' y' y2' q' Hr; inversion Hr; subst; exact Ez].
+              rewrite G2 by (cbn; lia). symmetry. apply BN. rewrite find_val_deep.
+              destruct (get z root0) as [[wz [cz]]|] eqn:Egz; [|reflexivity]. exfalso.
+              assert (is_some (vlookup z (labs rest)) = true); [|congruence].
+              apply (lsorted_app_above (labs pre) x w (labs rest) z); [rewrite <- HL; exact SS | | exact Hxz].
+              rewrite <- HL, <- get_labs by exact W0. rewrite Egz. reflexivity. }
+        assert (d - 1 = d - lenZ [x]) as Hk1 by (unfold lenZ; cbn [length]; lia).
+        destruct (sewb_ok d fuel b1 [x] (d - 1) Pre1 ltac:(lia) Hk1 Hfu) as (W3 & R1 & R2). fold root1 in R2.
+        split; [exact W3 | split].
+        * intros z y y2 q Hz. cbn [vlookup] in Hz. destruct (Z.eqb_spec z x) as [->|Hzx].
+          -- apply (R1 y y2 q).
+          -- rewrite R2; [apply T1; exact Hz | discriminate |]. intros x2 y' q' Hst. cbn [strip] in Hst.
+             destruct (Z.eqb_spec x z); [congruence | discriminate].
+        * intros rho Hr Hc. destruct (CI rho Hc) as [Hc1 Hc2]. rewrite R2; [apply T2; auto | exact Hr |].
+          intros x2 y q Hst. destruct rho as [|z t]; [congruence|]. cbn [strip] in Hst.
+          destruct (Z.eqb_spec x z) as [<-|]; [|discriminate]. inversion Hst; subst. apply (Hc2 x2 y q eq_refl).
+  Qed.
+
+  Theorem blockers_rule st : wf (tree st) -> 2 <= d ->
+    (forall rho, (length rho <= 2)%nat -> find_val rho (tree st) = B rho) ->
+    (forall rho, (3 <= length rho)%nat -> find_val rho (tree st) = None) ->
+    let r := fst (exp_blockers P true st d) in
+    wf (tree r) /\ forall rho, find_val rho (tree r) = B rho.
+  Proof.
+    intros W0 Hd G1 G2. unfold exp_blockers. destruct (Z.leb_spec d 1); [lia|]. cbn [andb fst tree].
+    set (fuel := (S (length (tree st)) + Z.to_nat d)%nat).
+    rewrite fold_left_rev_r.
+    assert (Z.to_nat (d - 1) < fuel)%nat as Hfu by (unfold fuel; lia).
+    destruct (top_ok fuel (tree st) W0 Hd Hfu G1 G2 (tree st) [] eq_refl (mkB (tree st) (dimn st) []) eq_refl) as (W & T1 & T2).
+    cbv zeta in W, T1, T2.
+    assert (forall l b, fold_right (fun (x : Z * V * trie) (acc : bstate) =>
+                                   let '(x0, _, Node c) := x in match c with [] => acc | _ :: _ => sewb fuel P d acc [x0] (d - 1) end) b l =
+                      fold_right (fun e b => top_step fuel b e) b l) as EQ.
+    { induction l as [|[[x w] [c]] l IH]; intro b; [reflexivity|]. cbn [fold_right]. rewrite IH. reflexivity. }
+    rewrite EQ. split; [exact W|].
+    intro rho. destruct rho as [|z [|y [|y2 q]]].
+    - rewrite <- (G1 []) by (cbn; lia). reflexivity.
+    - rewrite T2; [apply G1; cbn; lia | discriminate | intros z' y' y2' q' Hr; discriminate].
+    - rewrite T2; [apply G1; cbn; lia | discriminate | intros z' y' y2' q' Hr; discriminate].
+    - destruct (is_some (vlookup z (labs (tree st)))) eqn:Ez; [apply T1; exact Ez|].
+      rewrite T2; [| discriminate | intros z' y' y2' q' Hr; inversion Hr; subst; exact Ez].
+      rewrite G2 by (cbn; lia). symmetry. change (z :: y :: y2 :: q) with ([z] ++ y :: y2 :: q).
+      apply B_prefix; [discriminate|]. rewrite <- G1 by (cbn; lia). rewrite find_val_one, <- vlookup_labs by exact W0.
+      destruct (vlookup z (labs (tree st))); [discriminate | reflexivity].
+  Qed.
 End rule.
